@@ -83,14 +83,10 @@ func (mgr *GCMgr) UpdateCollision(bkt *Bucket, ki *KeyInfo, oldPos, newPos Posit
 }
 
 func (mgr *GCMgr) UpdateHtreePos(bkt *Bucket, ki *KeyInfo, oldPos, newPos Position) {
-	// TODO: should be a api of htree to be atomic
-	meta, _, ok := bkt.htree.get(ki)
-	if !ok {
-		logger.Warnf("old key removed when updating pos bucket %d %s %#v %#v",
-			bkt.ID, ki.StringKey, meta, oldPos)
-		return
+	if !bkt.htree.updatePos(ki, oldPos, newPos) {
+		logger.Warnf("key updated or removed while gc was moving it, bucket %d %s %#v",
+			bkt.ID, ki.StringKey, oldPos)
 	}
-	bkt.htree.set(ki, meta, newPos)
 }
 
 func (mgr *GCMgr) BeforeBucket(bkt *Bucket, startChunkID, endChunkID int, merge bool) {
